@@ -234,6 +234,9 @@ def binop(interp, op, a, b, inplace=False):
     if op == "Div" and (isinstance(a, _pathlib.PurePath) or (isinstance(a, SObj) and a.cls == "SymPath")):
         # path / "name with symbolic fields": a path value kept structurally
         o = ctx.obj("SymPath", {"parent": a, "name": b, "suffix": None})
+        hook = getattr(getattr(getattr(interp, "cur_frame", None), "unit", None), "on_sympath", None)
+        if hook is not None:
+            hook(ctx, o)
         return o
     if isinstance(a, SBytes) or isinstance(b, SBytes):
         if op != "Add":
@@ -1471,6 +1474,11 @@ def sym_isinstance(v, c):
         pt = getattr(v, "pytype", None)
         if pt is None:
             raise _engine().Unsupported("isinstance of an untyped opaque value")
+        if not isinstance(pt, type):
+            # symbolic value classes named by a tag ("path": a pathlib path)
+            import os as _os
+            return pt == "path" and isinstance(c, type) and issubclass(_pathlib.PurePosixPath, c) or \
+                (pt == "path" and c is _os.PathLike)
         return isinstance(c, type) and issubclass(pt, c)
     if isinstance(v, SMap):
         return c is dict
